@@ -411,9 +411,13 @@ def rule_attack_multiplicity(ctx):
                     if k is None or k.get("int") != 1:
                         continue
                     src = op_place(rv["ops"][0])
-                    if src is None or "*" not in [str(e) for e in src["p"]][:1] and not src["p"]:
-                        # a plain local counter (e.g. loop index arithmetic) - not an indexed element
+                    if src is None:
                         continue
+                    if "*" not in [str(e) for e in src["p"]][:1] and not src["p"]:
+                        # a plain local counter (e.g. loop index arithmetic) - not an indexed element - unless it is a copy of one (`match v[i] { 1 => .., n => v[i] = n - 1 }`)
+                        so = origins(b, rv["ops"][0], transparent=(), index_origins=True)
+                        if not (so and all(o.kind == "index" or (o.kind == "call" and re.search(r"ops::index::Index(Mut)?::index(_mut)?$", callee_decl(o.data) or "")) for o in so)):
+                            continue
                     n_dec += 1
                     anchor = "%s|decrement#%d" % (b.id, n_dec)
                     ok, why = _decrement_iteration(prog, b, s)
